@@ -52,7 +52,7 @@ Gf == [iv |-> <<V("p"), V("q")>>, im |-> <<>>, sv |-> <<>>, sm |-> <<>>, bv |-> 
        obj |-> FALSE, lst |-> FALSE, gf |-> FALSE, fn |-> TRUE, n |-> 100]
 Gm == [Gf EXCEPT !.iv = <<V("p"), Field(V("self"), "base")>>, !.n = 200]
 
-IntLits == <<0, 1, 2, 3, 5, 7, 10>>                 \* literals inside expressions (a negative literal is a unary minus: see "defneg")
+IntLits == <<0, 1, 2, 3, 5, 7, 10, -1, -4>>         \* literals inside expressions (a negative literal is a unary minus)
 SetupLits == <<0, 1, 2, 3, 5, 7, 10, -1, -4>>      \* right-hand sides of the typed set-up definitions
 StrLits == <<"a", "bc", "", "x y">>
 De == 2          \* depth of expressions
@@ -60,7 +60,7 @@ De == 2          \* depth of expressions
 RECURSIVE GenInt(_, _, _), GenBool(_, _, _), GenStr(_, _, _), HoleE(_, _), GenFStr(_, _)
 GenInt(G, d, r) ==
     LET opts == IF d = 0 THEN <<"lit", "var", "var">>
-                ELSE <<"lit", "var", "bin", "bin", "bin", "div", "call", "call2", "gf", "meth", "fld", "idx", "pow">>
+                ELSE <<"lit", "var", "bin", "bin", "bin", "div", "neg", "call", "call2", "gf", "meth", "fld", "idx", "pow">>
         t0 == Of(r, opts)
         tag == IF t0 = "var" /\ Len(G.iv) = 0 THEN "lit" ELSE IF t0 \in {"meth", "fld"} /\ ~G.obj THEN "bin"
                ELSE IF t0 = "idx" /\ ~G.lst THEN "bin" ELSE IF t0 = "gf" /\ ~G.gf THEN "call" ELSE t0
@@ -69,6 +69,7 @@ GenInt(G, d, r) ==
       [] tag = "var"   -> [x |-> Of(r1, G.iv), r |-> r2]
       [] tag = "bin"   -> LET a == GenInt(G, d - 1, r2) b == GenInt(G, d - 1, a.r) IN [x |-> Bin(Of(r1, <<"+", "-", "*">>), a.x, b.x), r |-> b.r]
       [] tag = "div"   -> LET a == GenInt(G, d - 1, r2) IN [x |-> Bin(Of(r1, <<"//", "mod">>), a.x, I(Of(a.r, <<2, 3, 5>>))), r |-> Nx(a.r)]
+      [] tag = "neg"   -> LET a == GenInt(G, d - 1, r1) IN [x |-> Neg(a.x), r |-> a.r]
       [] tag = "call"  -> LET a == GenInt(G, d - 1, r1) IN [x |-> Call("twice", <<a.x>>), r |-> a.r]
       [] tag = "call2" -> LET a == GenInt(G, d - 1, r2) b == GenInt(G, d - 1, a.r) IN
                           [x |-> Call("addk", IF Pick(r1, 2) = 1 THEN <<a.x>> ELSE <<a.x, b.x>>), r |-> b.r]
@@ -162,8 +163,8 @@ GenStmt(G, ds, r) ==
       [] tag = "defb" ->
             LET e == GenBool(G, De, r1) nm == Fresh(G, "u") IN
             [x |-> <<Def(nm, TRUE, "Bool", e.x), PrintS(V(nm))>>, g |-> Bump([G EXCEPT !.bv = Append(@, V(nm)), !.bm = Append(@, nm)]), r |-> e.r]
-      \* unary minus and the conditional expression are only used as the whole right-hand side of a typed definition (as an operand their
-      \* type cannot be inferred by today's checker - recorded as drift in DESIGN.md, not a listed property)
+      \* the conditional expression is only used as the whole right-hand side of a typed definition (as an operand its type cannot be
+      \* inferred by today's checker - recorded as drift in DESIGN.md, not a listed property; unary minus could not either until repair 0988c4b)
       [] tag = "defneg" ->
             LET e == GenInt(G, 1, r1) nm == Fresh(G, "v") IN
             [x |-> <<Def(nm, TRUE, "Int", Neg(e.x)), PrintS(V(nm))>>, g |-> Bump([G EXCEPT !.iv = Append(@, V(nm)), !.im = Append(@, nm)]), r |-> e.r]
